@@ -213,6 +213,8 @@ pub fn note_layout(st: &mut RunStats, enc: &Encoded, layout: &Layout) {
     st.probe("non_data_packet_last", s.non_data_last);
     st.probe("data_packet_longer_than_60000_bytes", s.max_packet_len > 60_000);
     st.probe("stream_slice_longer_than_32767_bytes", s.max_stream_len_in_packet > 32_767);
+    st.probe("ignored_packet_of_65536_bytes", s.max_non_data_packet_len == 65536);
+    st.probe("index_packet_above_leaf_level", s.max_index_level > 0);
     st.probe("xml_lexical_variants", layout.lexical);
     st.probe("optional_type_attributes_omitted", layout.omit_defaults);
     st.probe("sections_shuffled_and_padded", layout.shuffle);
